@@ -227,15 +227,27 @@ class CoopConn:
         self._conn.__exit__(et, ev, tb)
 
 
-OPEN_CONNS: list = []  # (actor, CoopConn)
+OPEN_CONNS: list = []  # (actor, weakref to CoopConn): connections are closed by refcount as in production
+
+
+def _live_conns():
+    out = []
+    for (a, r) in OPEN_CONNS:
+        c = r()
+        if c is not None:
+            out.append((a, c))
+    return out
 
 
 def coop_sqlite_connection(path):
+    import weakref
     conn = sqlite3.connect(str(path), timeout=0, check_same_thread=False)
     conn.execute("PRAGMA journal_mode=WAL")
     conn.execute("PRAGMA synchronous=NORMAL")
     c = CoopConn(conn)
-    OPEN_CONNS.append((CURRENT[0], c))
+    if len(OPEN_CONNS) > 200:
+        OPEN_CONNS[:] = [(a, r) for (a, r) in OPEN_CONNS if r() is not None]
+    OPEN_CONNS.append((CURRENT[0], weakref.ref(c)))
     return c
 
 
@@ -257,18 +269,17 @@ def install_sqlite_standin() -> list[str]:
 
 def close_actor_connections(actor) -> None:
     """Process death: open transactions are rolled back, file locks released."""
-    for (a, c) in list(OPEN_CONNS):
+    for (a, c) in _live_conns():
         if a is actor:
             try:
                 c._conn.rollback()
                 c._conn.close()
             except Exception:
                 pass
-            OPEN_CONNS.remove((a, c))
 
 
 def close_all_connections() -> None:
-    for (_, c) in list(OPEN_CONNS):
+    for (_, c) in _live_conns():
         try:
             c._conn.close()
         except Exception:
@@ -522,7 +533,7 @@ class Actor:
         """True while one of this actor's connections is inside a write transaction. Such an actor is not preempted:
         other writers would only wait for it and WAL readers see the pre-transaction snapshot either way, so no behaviour
         is lost, and atomic (non-yieldified) sections of other actors never hit a spurious 'database is locked'."""
-        for (a, c) in OPEN_CONNS:
+        for (a, c) in _live_conns():
             if a is self:
                 try:
                     if c._conn.in_transaction:
